@@ -256,6 +256,21 @@ func runC10(s *spec.Spec, logPath string) {
 func (c *c10) runMulti(nTasks int, logPath string) {
 	c.multi = true
 	probesC["concurrent_callers_run"]++
+	// tie moments are found by scanning up to 2500 years of term tables: harness work, done before the callers start
+	// (with the window that the initial clock gives) instead of inside a scheduled task
+	for i, lk := range c.s.Lookups {
+		if lk.Tie == nil {
+			continue
+		}
+		func() {
+			defer func() { recover() }()
+			nowT, _ := simrt.PeekClock()
+			ties := scanTies(lk.Base, nowT.In(time.Local).Year(), lk.Tie.Pick)
+			if len(ties) > 0 {
+				c.moments[i], c.haveMoment[i] = addSeconds(ties[lk.Tie.Pick%uint64(len(ties))], lk.Tie.OffS), true
+			}
+		}()
+	}
 	fns := make([]func(), nTasks)
 	for t := 0; t < nTasks; t++ {
 		t := t
@@ -331,6 +346,13 @@ func (c *c10) lookup(i int, lk spec.Lookup) {
 			}
 		}()
 		switch {
+		case lk.Tie != nil && c.multi:
+			if !c.haveMoment[i] {
+				ok = false
+				return
+			}
+			m = c.moments[i]
+			probesC["jie_on_full_hour"]++
 		case lk.Tie != nil:
 			nowT, _ := simrt.PeekClock()
 			ties := scanTies(lk.Base, nowT.In(time.Local).Year(), lk.Tie.Pick)
